@@ -1,6 +1,7 @@
 import EgVerif.Model.CircuitBreaker
 import EgVerif.Gen.FactsC08IR
 import EgVerif.Gen.FactsC08IRw
+import EgVerif.Gen.FactsC08IRc
 /-!
 Regenerated tie by translation for C08 (`notes/IR.md`): the `…IR` definitions of `Gen.FactsC08IR` are
 produced on every run by the go/ast micro-translator (`harness/factextract/irlib.go`) from the current
@@ -100,5 +101,14 @@ the model's `wrap`** (Extension resil; `irSpec.DeferInline`). -/
 theorem wrap_regenerated_from_source (permitted : Bool) (o : Outcome) :
     EgVerif.Gen.FactsC08IRw.wrapIR permitted o = wrap permitted o := by
   cases permitted <;> cases o <;> rfl
+
+/-- **`CircuitBreakerPolicy.CreateWrapper`, regenerated from the source**: the breaker is created with the
+configured thresholds / sizes, a TIME_BASED window iff the type says so in any letter case, slow-call
+threshold and open wait of one minute and no half-open maximum wait unless configured. -/
+theorem createWrapper_regenerated_from_source (raw : RawPolicy) (parse : String → Int × Bool) :
+    EgVerif.Gen.FactsC08IRc.createWrapperIR raw parse = policyOf raw parse := by
+  unfold EgVerif.Gen.FactsC08IRc.createWrapperIR policyOf
+  by_cases h1 : raw.winType.toUpper = "TIME_BASED" <;> by_cases h2 : raw.slowDur = "" <;>
+    by_cases h3 : raw.maxWaitHalf = "" <;> by_cases h4 : raw.waitOpen = "" <;> simp [h1, h2, h3, h4]
 
 end EgVerif.CircuitBreaker
